@@ -324,7 +324,11 @@ Run(p) ==
     LET sc0 == <<[n \in {p.vars[i].n : i \in 1..Len(p.vars)} |-> (CHOOSE x \in {p.vars[i] : i \in 1..Len(p.vars)} : x.n = n).v]>>
         r == ExecBlock(p.body, sc0, MaxFuel, 1) IN
     CASE r.ctl = "error" -> (IF r.val \in {"UNREP", "OPAQUE"} THEN [kind |-> "unrep"] ELSE [kind |-> "error", class |-> r.val])
-      [] r.ctl \in {"return", "next"} -> [kind |-> "value", v |-> r.val]
+      [] r.ctl \in {"return", "next"} ->
+            \* a block that ran into the iteration limit and was never awaited is still spinning when the route answers
+            IF \E i \in 1..Len(r.sc) : \E n \in DOMAIN r.sc[i] : r.sc[i][n].k = "fut" /\ ~r.sc[i][n].r.ok /\ r.sc[i][n].r.err = "limit"
+              THEN [kind |-> "unrep"]
+              ELSE [kind |-> "value", v |-> r.val]
       [] r.ctl \in {"break", "continue"} -> [kind |-> "error", class |-> "loopctl"]     \* break/continue outside a loop
 
 (* ---- concrete syntax --------------------------------------------------------------------------- *)
